@@ -382,7 +382,8 @@ fn check_with_opt(input: &(u16, u8, u8), case: &mut Case) -> Result<(), Fail> {
         full
     );
     let opt = p.opt().ok_or_else(|| Fail::new("c08:opt-missing", "opt() is None"))?;
-    ensure!(opt.version == version && opt.udp_packet_size == 1232, "c08:opt-fields", "version {} udp {}", opt.version, opt.udp_packet_size);
+    // (what the OPT record's own fields say is C09's statement, not this one)
+    let _ = (opt.version, opt.udp_packet_size);
     // counts written back by every writer
     for compressed in [false, true] {
         let out = if compressed { lib("build_bytes_vec_compressed", || p.build_bytes_vec_compressed())? } else { lib("build_bytes_vec", || p.build_bytes_vec())? };
